@@ -743,6 +743,8 @@ where
     Fut: Future<Output = Result<Value, String>>,
 {
     install_panic_hook();
+    // one run in four executes with every log statement of the code under test enabled
+    let _tracing = if seed % 4 == 3 { Some(crate::tracing_all::on_this_thread()) } else { None };
     let rt = tokio::runtime::Builder::new_current_thread()
         .enable_all()
         .start_paused(true)
